@@ -167,6 +167,7 @@ func (r *run) monitor(events []string, st *scheduler.VerifState, dump string) {
 			newRet[kv["w"]] = r.w.clk.now
 			if len(f) > 2 && f[2] == "exec" {
 				wk := kv["w"]
+				r.checkNotDrained(wk, st)
 				t := taskOfWorker[wk]
 				tl := taskLine[t]
 				if t == "" || t == "-" || tl == nil {
@@ -230,4 +231,55 @@ func timeoutProp() string {
 		return "C02"
 	}
 	return "C06"
+}
+
+// checkNotDrained (C05): a worker that is handed a NEW task in this segment (taken from the
+// queue or handed over while parked; not the re-sending of the task it already runs) must
+// not have been drained or terminating: it was terminating before the segment, or it matches
+// a drain pattern that was in force both before and after the segment.
+func (r *run) checkNotDrained(wk string, after *scheduler.VerifState) {
+	before := r.prevSt
+	k := strings.Split(wk, "/")
+	if before == nil || len(k) != 3 {
+		return
+	}
+	pq, sc := atoi(k[0]), atoi(k[1])
+	qb, qa := r.w.findQueue(before, pq, sc), r.w.findQueue(after, pq, sc)
+	wb, wa := findWorker(qb, k[2]), findWorker(qa, k[2])
+	if wb == nil || wa == nil || wa.CurrentTaskOperation == "" || wb.CurrentTaskOperation == wa.CurrentTaskOperation {
+		return
+	}
+	if wb.Cleanup != nil && !wb.Cleanup.After(after.Now) {
+		return // the worker object of the previous segment was removed as stale on entry; this is a freshly registered worker
+	}
+	why := ""
+	if wb.Terminating {
+		why = "was marked as terminating"
+	}
+	for _, db := range qb.Drains {
+		if !workerMatches(wb.ID, db) {
+			continue
+		}
+		for _, da := range qa.Drains {
+			if patternString(da) == patternString(db) {
+				why = "matches the drain " + patternString(db) + " of its size class queue"
+			}
+		}
+	}
+	if why != "" {
+		how := "took a task from the queue"
+		if wb.Parked {
+			how = "was handed a task while blocked in Synchronize"
+		}
+		r.failf("violation", "C05", "C05.no_task_to_drained_worker", "worker %s %s (operation %d) although it %s", wk, how, opIndex(wa.CurrentTaskOperation), why)
+	}
+}
+
+func workerMatches(id, pattern map[string]string) bool {
+	for k, v := range pattern {
+		if id[k] != v {
+			return false
+		}
+	}
+	return true
 }
